@@ -4,5 +4,6 @@ CONSTANTS
   MaxSess = 3
   MaxRpc = 1
   InLock = FALSE
+  MaxWedged = 1
 INVARIANTS CanMakeCallsConsistent
 CHECK_DEADLOCK FALSE
